@@ -7,7 +7,7 @@ from ..source import AnalysisError
 from .keydomain import reader_kinds
 from . import subdomain_folds as sf
 
-EXPLANATION = "(R1) extract_sphere / extract_box interpreted through the repository's Dataset/Datagroup/Vector classes over scenario datasets (mesh, hydro without positions, particles with as many rows as the mesh, sinks, a group of another length; a dataset without a mesh group): which groups are returned, the ONE mask that selects the rows of every member as polynomial atoms (|pos-origin| < radius; |offset_a| <= size_a/2 per axis), own positions before mesh positions, lazy mesh fallback under the group name the AMR reader produces, input untouched, metadata copied; (R5) Array.to exact (shared); (R6) every way of putting a group into a Dataset sets its parent link (shared with C20). Closures (a shared _extract helper with per-shape select functions) are interpreted. (R7) the distance to the origin is a total norm; one group object stored under two keys is returned under both. One position Vector of every scenario has a component assigned after construction (pos.z = z)."
+EXPLANATION = "(R1) extract_sphere / extract_box interpreted through the repository's Dataset/Datagroup/Vector classes over scenario datasets (mesh, hydro without positions, particles with as many rows as the mesh, sinks, a group of another length; a dataset without a mesh group): which groups are returned, the ONE mask that selects the rows of every member as polynomial atoms (|pos-origin| < radius; |offset_a| <= size_a/2 per axis), own positions before mesh positions, lazy mesh fallback under the group name the AMR reader produces, input untouched, metadata copied; (R5) Array.to exact (shared); (R6) every way of putting a group into a Dataset sets its parent link (shared with C20). Closures (a shared _extract helper with per-shape select functions) are interpreted. (R7) the distance to the origin is a total norm; one group object stored under two keys is returned under both. One position Vector of every scenario has a component assigned after construction (pos.z = z). (R5) group[mask] applies one selection to every member for masks of every rank (shared with C06.R3); mask.all() / mask.any() are answered from what the scenario says about the mask."
 NOT_DECIDED = 'boundary rounding; 1-D/2-D datasets; numeric unit conversion (pint)'
 TRUSTED = ('CPython ast', 'Array comparison semantics as established by C07', 'Datagroup.__getitem__ as established by C06.R3', 'the interpreter sa/models.py (ModelEval) and its library models')
 
